@@ -119,11 +119,34 @@ def opCfg (j : Json) : Json :=
       | some g => jlist (fun a => jopt (fun (m : Mo) => jnat m.vaddr) (getWithAddress g a)) gets
     Json.mkObj [("steps", Json.arr outs.reverse.toArray), ("get", getj)]
 
+/-- `zone`: writes of runs of the stream straight into the zone model (`MemoryZone.write` with nodes
+    as data), overlapping ones included -/
+def opZone (j : Json) : Json :=
+  match (do
+    let stream ← instrsOf j "stream"
+    let ws ← (← getArr j "writes").toList.mapM (histItem stream)
+    pure ws) with
+  | .error e => jerr e
+  | .ok ws =>
+    let step (acc : Option Zone × List Json) (v : Block) : Option Zone × List Json :=
+      match acc.1 with
+      | none => (none, Json.str "skipped" :: acc.2)
+      | some z =>
+        match address? v with
+        | none => (none, Json.str "error" :: acc.2)
+        | some a =>
+          match zoneWrite z a v with
+          | none => (none, Json.str "error" :: acc.2)
+          | some z' => (some z', jlist moJson z' :: acc.2)
+    let (_, outs) := ws.foldl step (some [], [])
+    Json.arr outs.reverse.toArray
+
 def handle (j : Json) : Json :=
   match getStr j "op" with
   | .ok "sweep" => opSweep j
   | .ok "blk" => opBlk j
   | .ok "cfg" => opCfg j
+  | .ok "zone" => opZone j
   | .ok o => jerr s!"unknown op {o}"
   | .error e => jerr e
 
